@@ -14,7 +14,7 @@ use tokio_util::codec::LengthDelimitedCodec;
 
 use crate::{
     RemoteSend,
-    chmux::{ChMux, ChMuxError},
+    chmux::{self, ChMux, ChMuxError},
     codec,
     rch::base,
 };
@@ -217,7 +217,11 @@ impl<'transport, TransportSinkError, TransportStreamError>
 
         tokio::select! {
             biased;
-            Err(err) = &mut connection => Err(err.into()),
+            res = &mut connection => match res {
+                Err(err) => Err(err.into()),
+                // The multiplexer has terminated, its future must not be polled again.
+                Ok(()) => Err(ConnectError::RemoteConnect(base::ConnectError::Connect(chmux::ConnectError::ChMux))),
+            },
             result = base::connect(&client, &mut listener) => {
                 match result {
                     Ok((tx, rx)) => Ok((connection, tx, rx)),
